@@ -1160,7 +1160,9 @@ func oracles08(r *Run, t *c08Tree, flat []flatRes, bo buildOut) {
 			if ok, _ := subKV(selIn, podLabelsOf(w.in)); !ok {
 				continue
 			}
-			if !shapeOK(w.in, strings.Split(tp, "/")) || !tmplCovered(w.in) || chainHasFields(s.fr.Chain) {
+			// domain of C08_selects_preserved_partial: the workload is covered by a create=true template row, a
+			// selector row matches the selecting object's apiVersion, no custom fields
+			if !shapeOK(w.in, strings.Split(tp, "/")) || !tmplCovered(w.in) || !selCovered(s.in) || chainHasFields(s.fr.Chain) {
 				continue
 			}
 			r.Count("oracle", "selects_preserved")
@@ -1240,6 +1242,16 @@ func genFilterCase(rng *Rng) c08FilterCase {
 			f = c08RowPool[rng.Intn(len(c08RowPool))]
 			f.Kind, f.Group, f.Version = kind, "", ""
 			f.Create = rng.Bool()
+		}
+		// Domain restriction: all rows with the same path carry the same create flag. A create=false row that
+		// ends at a null scalar appends the entry to the Content of that scalar (invisible); a later create=true
+		// row for the same path retags the node as a mapping and the hidden entries surface. Hidden content of a
+		// scalar is not representable in the model's node type (Yaml/Node.v); the default tables never contain
+		// such a pair of rows for one object and FsSlice.MergeOne rejects it ("conflicting fieldspecs").
+		for _, g := range c.Fss {
+			if g.Path == f.Path {
+				f.Create = g.Create
+			}
 		}
 		c.Fss = append(c.Fss, f)
 	}
